@@ -794,6 +794,22 @@ fn dispatch(mode: &str, fields: &[&str]) -> String {
         "eval" => mode_eval(fields),
         "chars" => mode_chars(fields),
         "lex" => mode_lex(fields),
+        "uclass" => {
+            // code points (hex, comma separated) -> which are alphanumeric / whitespace for the lexer
+            let mut al = Vec::new();
+            let mut ws = Vec::new();
+            for x in fields[0].split(',').filter(|x| !x.is_empty()) {
+                if let Some(c) = u32::from_str_radix(x, 16).ok().and_then(char::from_u32) {
+                    if c.is_alphanumeric() {
+                        al.push(x.to_string());
+                    }
+                    if c.is_whitespace() {
+                        ws.push(x.to_string());
+                    }
+                }
+            }
+            format!("{}\t{}", al.join(","), ws.join(","))
+        }
         "intern" => mode_intern(fields),
         _ => "BADMODE".to_string(),
     }
